@@ -240,6 +240,8 @@ class TelnetTransport(Transport):
                 else:
                     self._cooked_buf += buf
             except (EOFError, OSError) as exc:
+                # the connection is gone (or the socket timed out): later reads fail right away
+                self._eof = True
                 raise ScrapliConnectionError(
                     "encountered EOF reading from transport; typically means the device closed the "
                     "connection"
